@@ -233,11 +233,22 @@ def judgeAccepted (env : Env) (s : State) (c : Call) (r : Response) (s' : State)
   let v := v.check "C05" "authorized" (authorized s c.sender c.msg)
   let v := v.check "C10" "C10_msgsOK" (C10_msgsOK env c r)
   let v := v.check "C11" "C11_frameOK" (C11_frameOK s c.msg s')
-  let v := v.check "C11" "sane" (sane s')
+  let exactStep := match c.msg with
+    | .executeMatch _ b p sz =>
+      (match loadBid s b, Dec.parse p with
+       | some bb, some pp =>
+         exactMul pp sz && (match Dec.parse bb.price with | some bp => exactMul bp sz | none => false)
+       | _, _ => false)
+    | .createBid _ _ _ price _ qs size =>
+      (match Dec.parse price, bidRate s.info with
+       | some p, some rate => exactMul p size && exactMul rate qs
+       | _, _ => false)
+    | _ => true
+  let v := if sane s then v.check "C11" (if exactStep then "sane" else "sane_inexact") (sane s') else v
   let v := v.check "C08" "C08_readyTracks" (C08_readyTracks s')
   let v := v.check "C17" "C17_attrsOK" (C17_attrsOK s c r s')
   let v := v.check "C12" "C12_modifyOK" (C12_modifyOK s c.msg s')
-  let v := if feeTracked then
+  let v := if feeTracked && feeExact s then
       let v := v.check "C09" "feeExact" (feeExact s')
       s'.bids.foldl (fun v kv =>
         if C09_small kv.2 then v.check "C09" "C09_bidNear" (C09_bidNear kv.2)
